@@ -238,6 +238,66 @@ def run_module(chk, w2c2, k, consts, builds, seg_offsets):
     shutil.rmtree(d, ignore_errors=True)
 
 
+def literal_sweep(chk, w2c2, quick, builds):
+    """Full-coverage pre-filter: the real literal writer (wasmCWriteLiteral, via harness/literal_sweep.c which includes w2c2/c.c) is
+    run over ALL 2^32 f32 bit patterns (thorough) or every 16th of them (quick; offset VERIF_SEED mod 16) and over large random f64
+    samples; its text is evaluated with C literal semantics. Patterns flagged there are then put through the real path (translate,
+    compile with gcc and clang, run), which decides."""
+    d = env.subdir('c07-sweep')
+    srcs = [os.path.join(env.REPO, 'w2c2', f) for f in sorted(os.listdir(os.path.join(env.REPO, 'w2c2')))
+            if f.endswith('.c') and not f.endswith('_test.c') and f not in ('test.c', 'c.c', 'main.c')]
+    exe = os.path.join(d, 'sweep')
+    r = env.run(['gcc', '-std=gnu90', '-O2', '-w'] + env.W2C2_DEFS + ['-I', os.path.join(env.REPO, 'w2c2'), os.path.join(env.VERIF, 'harness', 'literal_sweep.c')] + srcs +
+                ['-o', exe, '-lpthread', '-lm'], timeout=600)
+    if r.rc != 0:
+        chk.inconclusive('literal sweep harness does not build against this tree: %s' % r.err[-800:])
+        return
+    jobs = []
+    nchunks = 64
+    if quick:
+        per = (1 << 32) // 16 // nchunks
+        off = env.SEED % 16
+        for c in range(nchunks):
+            jobs.append(['32', str(off + 16 * per * c), str(per), '16', '0'])
+        for c in range(16):
+            jobs.append(['64', str(env.SEED * 1000003 + c), str(500000), '1', '1'])
+    else:
+        per = (1 << 32) // nchunks
+        for c in range(nchunks):
+            jobs.append(['32', str(per * c), str(per), '1', '0'])
+        for c in range(64):
+            jobs.append(['64', str(env.SEED * 1000003 + c), str(6000000), '1', '1'])
+    # f64: additionally every exponent with structured significands (all-zero, single bits, all-ones, alternating)
+    flagged = []
+    total = {'32': 0, '64': 0}
+    unparsed = 0
+    for job, rr in env.pmap(lambda j: (j, env.run([exe] + j, timeout=3600)), jobs):
+        if rr.rc != 0 or 'DONE' not in rr.out:
+            chk.inconclusive('literal sweep chunk %s failed: rc %s %s' % (job, rr.rc, rr.err[-200:]))
+            continue
+        for l in rr.out.splitlines():
+            if l.startswith('M '):
+                _, w, bits, text = l.split(' ', 3)
+                flagged.append((F32 if w == '32' else F64, int(bits, 16), text))
+            elif l.startswith('U '):
+                unparsed += 1
+                chk.log('note: literal sweep could not evaluate the text %r' % l)
+            elif l.startswith('DONE'):
+                total[job[0]] += int(l.split('n=')[1].split(' ')[0])
+    chk.ev(total['32'] + total['64'])
+    chk.observe('sweep_f32_patterns', total['32'], 'set')
+    chk.observe('sweep_f64_patterns', total['64'], 'set')
+    chk.observe('sweep_f32_exhaustive', (not quick) and total['32'] == (1 << 32), 'set')
+    chk.observe('sweep_flagged', len(flagged), 'set')
+    if unparsed:
+        chk.inconclusive('%d literal texts have a form the sweep cannot evaluate' % unparsed)
+    if flagged:
+        cs = [(t, b, 'sweep-flagged') for t, b, _ in flagged[:300]]
+        before = chk.nviolations() if hasattr(chk, 'nviolations') else None
+        run_module(chk, w2c2, 9000, cs, builds[:2], {'data': [0], 'elem': [0]})
+        chk.log('note: literal sweep flagged %d patterns (e.g. %s emitted as %s); they were run through the real path' % (len(flagged), hex(flagged[0][1]), flagged[0][2]))
+
+
 def main(chk):
     quick = chk.tier == 'quick'
     w2c2 = env.build_translator('plain')
@@ -259,6 +319,7 @@ def main(chk):
         run_module(chk, w2c2, k, cs, builds, seg)
 
     env.pmap(one, list(enumerate(mods)), jobs=max(2, env.JOBS // 3))
+    literal_sweep(chk, w2c2, quick, builds)
     chk.observe('constants_total', len(consts), 'set')
     chk.observe('builds', [b[0] for b in builds], 'set')
     chk.assume('gcc 12 / clang 14 parse decimal and hexadecimal literals correctly (they are the compilers the property quantifies over here)')
